@@ -113,7 +113,8 @@ def engine_rules(chk):
            failed('BR_ERR_BAD_LENGTH', ('ixc', ixc)), ('pin', 1),
            'a record whose length the current mode refuses must close the engine before any payload byte is awaited', rule=R, noinline=NI),
     ]
-    oblig.run_obligations(chk, obs)
+    from .. import engio
+    oblig.run_obligations(chk, obs + engio.reject_obligations(R))
 
 
 def ordering(chk):
